@@ -302,6 +302,25 @@ def _run_shard(modname, comp_idx, shard_idx, n, seed, deadline, outfile, target_
         json.dump(summary, f, default=str)
 
 
+def _run_replay(modname, path, outfile):
+    out = {"error": None, "fails": [], "component": None}
+    try:
+        import warnings
+
+        import numpy as _np
+
+        warnings.filterwarnings("ignore", category=RuntimeWarning)
+        _np.seterr(all="ignore")
+        mod = importlib.import_module(modname)
+        data, results = replay_file(mod, Path(path))
+        out["component"] = data["component"]
+        out["fails"] = [(r.sig, r.detail) for r in results if r.status == "fail"]
+    except BaseException as e:  # noqa
+        out["error"] = "".join(traceback.format_exception(type(e), e, e.__traceback__))[-4000:]
+    with open(outfile, "w") as f:
+        json.dump(out, f)
+
+
 def _spawn(target, args):
     ctx = multiprocessing.get_context("fork")
     p = ctx.Process(target=target, args=args)
@@ -464,16 +483,30 @@ def main(argv=None):
         # ---- regression replays (committed, expected to pass)
         rdir = REPLAY_DIR / pid
         if rdir.is_dir():
-            for path in sorted(rdir.glob("*.json")):
-                data, results = replay_file(mod, path)
+            paths = sorted(rdir.glob("*.json"))
+            # replays run concurrently in forked children (some, e.g. crash enumerations, take seconds)
+            running, pending, outs = [], list(enumerate(paths)), {}
+            while pending or running:
+                while pending and len(running) < 16:
+                    i, path = pending.pop(0)
+                    out = workdir / f"replay_{i}.json"
+                    outs[i] = (path, out)
+                    running.append(_spawn(_run_replay, (modname, str(path), str(out))))
+                running = [p for p in running if p.is_alive() or p.join()]
+                time.sleep(0.02)
+            for i, (path, out) in sorted(outs.items()):
+                if not out.exists():
+                    raise HarnessError(f"replay {path} died without output")
+                r = json.loads(out.read_text())
+                if r.get("error"):
+                    raise HarnessError(f"replay {path} failed:\n{r['error']}")
                 replayed += 1
-                for res in results:
-                    if res.status == "fail":
-                        k = match_known(known_entries, data["component"], res.sig)
-                        if k:
-                            known_hits.setdefault(k["id"], [k, 0])[1] += 1
-                        else:
-                            violations.append((data["component"], res.sig, path, res.detail))
+                for sig, detail in r["fails"]:
+                    k = match_known(known_entries, r["component"], sig)
+                    if k:
+                        known_hits.setdefault(k["id"], [k, 0])[1] += 1
+                    else:
+                        violations.append((r["component"], sig, path, detail))
 
         # ---- generated search
         jobs = []
